@@ -24,6 +24,53 @@ def helper(out, a):
 def api(a):
     helper(_tmp, a)
     return _tmp[0] + 1
+
+
+# controls for the rules whose instance count on a healthy tree is zero (round 11)
+import functools
+from typing import List
+
+def memoize_last(fn):
+    last_arg = None
+    last_result = None
+
+    @functools.wraps(fn)
+    def wrapper(arg):
+        nonlocal last_arg, last_result
+        if arg == last_arg:
+            return last_result
+        result = fn(arg)
+        last_arg = arg
+        last_result = result
+        return result
+    return wrapper
+
+@memoize_last
+def api2(a):
+    return a + 1
+
+_table = {}
+
+def api3(point, level):
+    key = (round(point[0], 6), round(point[1], 6), level)
+    hit = _table.get(key)
+    if hit is not None:
+        return hit
+    value = search(point, level)
+    _table[key] = value
+    return value
+
+def search(point, level):
+    return point[0] * level
+
+_lists = {}
+
+def api4(k) -> List[int]:
+    if k in _lists:
+        return _lists[k]
+    xs = [k, k + 1]
+    _lists[k] = xs
+    return xs
 '''
 
 
@@ -409,7 +456,7 @@ def _positive_control(ctx):
     try:
         os.makedirs(os.path.join(d, "a5"))
         with open(os.path.join(d, "a5", "__init__.py"), "w") as fh:
-            fh.write("from a5.ctl import api\n__all__ = ['api']\n")
+            fh.write("from a5.ctl import api, api2, api3, api4\n__all__ = ['api', 'api2', 'api3', 'api4']\n")
         with open(os.path.join(d, "a5", "ctl.py"), "w") as fh:
             fh.write(_CONTROL)
         from .model import Model
@@ -421,5 +468,23 @@ def _positive_control(ctx):
         if not any(g.target[1] == "a5.ctl._tmp" for g in hits):
             raise core.AnalysisError("positive control for C16.1 did not fire (scratch written through an out-parameter helper)")
         ctx.analysed["positive_control"] = "fired: a5.ctl._tmp written via helper(out, a)"
+        # the rules added in round 11 have no instance on a healthy tree: each must fire on the synthetic module
+        import types
+        from .shared_state import lossy_key_memo
+        fired = []
+        if lossy_key_memo(m, "a5.ctl.api3") is None:
+            raise core.AnalysisError("positive control for C17.2 (memo key rounds an argument) did not fire")
+        fired.append("C17.2 rounding key: a5.ctl.api3")
+        if not any(n[0] == "G" and n[2] >= 1 for n in e.summaries["a5.ctl.api4"].ret):
+            raise core.AnalysisError("positive control for C17.4 / C10.6 / C20.7 (a table entry is the returned value) did not fire")
+        fired.append("returned table entry: a5.ctl.api4")
+        got = []
+        shim_ctx = types.SimpleNamespace(bad=lambda *a, **k: got.append(a), unk=lambda *a, **k: None, ok=lambda *a, **k: None)
+        shim_w = types.SimpleNamespace(unknown_decorators=m.unknown_decorators(), reach=set(reach) | {"a5.ctl.api2"}, model=m, rel_of=lambda f: "a5/ctl.py")
+        closure_state_of_decorators(shim_ctx, shim_w)
+        if not any(a[0] == "C16.5" for a in got):
+            raise core.AnalysisError("positive control for C16.5 (closure state of a decorator) did not fire")
+        fired.append("C16.5 closure state: a5.ctl.memoize_last around a5.ctl.api2")
+        ctx.analysed["positive_controls_round_11"] = fired
     finally:
         shutil.rmtree(d, ignore_errors=True)
